@@ -530,7 +530,7 @@ class ZOptimize:
         if self.real is None:
             self.mode = "real"
             self.real = Z.Optimize()
-            self.real.set("timeout", 120000)
+            self.real.set("timeout", REAL_OPT_LIMIT_S * 1000)
             for k, v in self.params.items():
                 if k != "timeout":
                     self.real.set(k, v)
@@ -565,7 +565,9 @@ class ZOptimize:
 
     def add(self, *fs):
         fs = _args(fs)
-        if fs and all(isinstance(f, Z.ExprRef) for f in fs):
+        if not fs:
+            return None
+        if all(isinstance(f, Z.ExprRef) for f in fs):
             return self._real().add(*fs)
         self._tab()
         for f in _tabs(fs):
@@ -602,8 +604,23 @@ class ZOptimize:
 
     def check(self, *assumptions):
         if self.mode == "real":
-            r = self.real.check(*assumptions)
+            # watchdog: z3's own timeout does not stop every optimisation loop (e.g. an
+            # objective that is unbounded below in pareto mode); interrupt after 60 s
+            import threading
+            timer = threading.Timer(REAL_OPT_LIMIT_S, self.real.ctx.interrupt)
+            timer.start()
+            try:
+                r = self.real.check(*assumptions)
+            except Z.Z3Exception as e:
+                if "interrupt" in str(e).lower() or "cancel" in str(e).lower():
+                    r = Z.unknown
+                else:
+                    raise
+            finally:
+                timer.cancel()
             self.last = r
+            if r == Z.unknown and symex.ENG is not None:
+                symex.ENG.notes["real_optimize_gave_up"] = True
             return r
         if assumptions:
             raise StubGap("Optimize.check with assumptions")
@@ -1032,6 +1049,7 @@ def _zi(x):
 
 
 COSTW = 8
+REAL_OPT_LIMIT_S = 10
 
 
 def _cv(n):
